@@ -369,3 +369,84 @@ def join_name_scenarios(w: PolWorld, branch):
             problems.append(f"selection {local['select']}")
         out.append((desc, not problems, f"Polars join ({desc}): " + "; ".join(problems[:3]) + " - the exported frame carries a wrong / hash-suffixed / missing column"))
     return out
+
+
+def union_name_scenarios(w: PolWorld, branch):
+    """the Union branch of the Polars compiler on schema-level frame stubs: both inputs are projected to the left table's visible
+    names (in that order) before they are stacked, and afterwards the name map knows exactly the columns of the frame.
+    -> list of (description, ok, detail)"""
+    from collections import ChainMap
+
+    p = w.p
+    out = []
+    for label, lv, lh, rv, rh in (
+        ("same order, hidden columns on both sides", ["a", "b"], ["h"], ["a", "b"], ["k"]),
+        ("right side in another order", ["a", "b"], [], ["b", "a"], ["k"]),
+        ("no hidden columns", ["a", "b"], [], ["a", "b"], []),
+    ):
+        for distinct in (False, True):
+            luid = {n: f"L.{n}" for n in lv + lh}
+            ruid = {n: f"R.{n}" for n in rv + rh}
+            stacked = []
+
+            def stack(frames, *a, _s=stacked, **k):
+                cols = [f.attrs["__frame__"].columns if isinstance(f, Obj) and "__frame__" in f.attrs else None for f in frames]
+                _s.append(cols)
+                fr = _frame_obj(w, Frame(cols[0] or []))
+                _add_schema_methods(w, fr)
+                return fr
+
+            class _PlNS(_ModuleNS):
+                def __getattr__(self_, k):
+                    if k.startswith("__"):
+                        raise AttributeError(k)
+                    return SymNS(f"pl.{k}")
+
+            w.env["pl"] = _PlNS({"union": Native(stack, "pl.union"), "concat": Native(stack, "pl.concat")})
+            lf, rf = _frame_obj(w, Frame(lv + lh)), _frame_obj(w, Frame(rv + rh))
+            _add_schema_methods(w, lf)
+            _add_schema_methods(w, rf)
+            right_node = p.new("tree.verbs", "Ungroup", child=None, name="r")
+            nd = p.new("tree.verbs", "Union", child=None, right=right_node, distinct=distinct, name="l")
+            w.env["compile_ast"] = Native(lambda node, _f=rf, _n={u: n for n, u in ruid.items()}, _s=[ruid[n] for n in rv]: (_f, dict(_n), list(_s), []), "compile_ast")
+            local = {"nd": nd, "df": lf, "name_in_df": {u: n for n, u in luid.items()}, "select": [luid[n] for n in lv], "partition_by": []}
+            env = ChainMap(local, w.env)
+            desc = f"{label}, distinct={distinct}"
+            try:
+                p.it.exec_block(list(branch), env)
+            except PyRaise as e:
+                out.append((desc, False, f"the Polars Union branch raises {e.name}: {e.msg}"))
+                continue
+            finally:
+                w.env["pl"] = SymNS("pl")
+            probs = []
+            if not stacked or stacked[0] != [lv, lv]:
+                probs.append(f"the frames that are stacked have the columns {stacked[0] if stacked else None}, documented {[lv, lv]} (hidden columns must not take part, columns are matched by position)")
+            df = local["df"]
+            cols = df.attrs["__frame__"].columns if isinstance(df, Obj) and "__frame__" in df.attrs else None
+            names = local["name_in_df"]
+            stale = sorted(v for v in names.values() if cols is not None and v not in cols)
+            if stale:
+                probs.append(f"the name map still lists {stale}, which the stacked frame (columns {cols}) does not have: a later verb that reuses such a name fails")
+            if [names.get(luid[n]) for n in lv] != lv:
+                probs.append(f"visible columns are stored as {[names.get(luid[n]) for n in lv]}")
+            if local["select"] != [luid[n] for n in lv]:
+                probs.append(f"selection {local['select']}")
+            out.append((desc, not probs, f"Polars union ({desc}): " + "; ".join(probs)))
+    return out
+
+
+def _add_schema_methods(w, fr):
+    cols = fr.attrs["__frame__"].columns
+    fr.attrs["collect_schema"] = Native(lambda _c=cols: tuple(sorted(_c)), "frame.collect_schema")
+    fr.attrs["limit"] = Native(lambda n, _f=fr: _f, "frame.limit")
+    fr.attrs["cast"] = Native(lambda m, _f=fr: _f, "frame.cast")
+    fr.attrs["unique"] = Native(lambda *a, _f=fr, **k: _f, "frame.unique")
+    sel = fr.attrs["select"]
+
+    def select(*names, _sel=sel):
+        r = _sel.fn(*names)
+        _add_schema_methods(w, r)
+        return r
+
+    fr.attrs["select"] = Native(select, "frame.select")
